@@ -956,6 +956,11 @@ def _cachekey(ctx, index, graph, gen):
                 key, val = n.args
             if key is None or not isinstance(val, ast.Call):
                 continue
+            if isinstance(key, ast.Name):
+                # `kind = type(obj)` ... `cache[kind] = f(obj)`: the key through its one local definition
+                kd = [m.value for m in ast.walk(fn_node) if isinstance(m, ast.Assign) and len(m.targets) == 1 and isinstance(m.targets[0], ast.Name) and m.targets[0].id == key.id]
+                if len(kd) == 1:
+                    key = kd[0]
             for a in list(val.args) + [k.value for k in val.keywords]:
                 if isinstance(a, ast.Name) and lossy_of(key, a.id):
                     out.append((n, key, val, a.id))
